@@ -235,6 +235,46 @@ def gen(ctx, p):
                 ctx.require(not any(c in vals for c in cs), f"{g}: probability 0 filled a clique of that order")
 
 
+def crosshair_post(results):
+    """Second engine for the decoders: CrossHair (its own z3 encoding of the real
+    functions) must confirm the contracts of vx/ch/decoders.py over all paths."""
+    import os
+    import re
+    import subprocess
+    import sys
+    import time
+
+    root = os.path.dirname(os.path.dirname(os.path.dirname(os.path.abspath(__file__))))
+    t0 = time.time()
+    p = subprocess.run([sys.executable, "-m", "crosshair", "check", "--report_all", "--per_condition_timeout", "120", "vx/ch/decoders.py"],
+                       cwd=root, capture_output=True, text=True, env=dict(os.environ, PYTHONPATH=root), timeout=1200)
+    out = p.stdout + p.stderr
+    confirmed = len(re.findall(r"info: Confirmed over all paths", out))
+    viol, problems = [], []
+    for m in re.finditer(r"error: (?:false|False)[^\n]*when calling (\w+)\(([^)]*)\)", out):
+        fn, args = m.group(1), m.group(2)
+        try:
+            kv = dict((a.split("=")[0].strip(), int(a.split("=")[1])) for a in args.split(","))
+            from ..ch import decoders
+
+            holds = bool(getattr(decoders, fn)(**kv))
+        except Exception as ex:
+            problems.append(f"crosshair counterexample for {fn}({args}) could not be replayed: {ex!r}")
+            continue
+        if not holds:
+            viol.append({"harness": "C16.crosshair", "params": {"contract": fn, "shape": None}, "clause": "decoder contract (range + injectivity) refuted by CrossHair",
+                         "model": kv, "info": {"args": kv},
+                         "replay_py": f"def replay():\n    from vx.ch import decoders\n    return not decoders.{fn}(**{kv!r})\n"})
+        else:
+            problems.append(f"crosshair counterexample for {fn}({args}) did not reproduce")
+    expected = 4
+    if not viol and confirmed != expected:
+        problems.append(f"CrossHair confirmed {confirmed} of {expected} decoder contracts: {out.strip()[-400:]}")
+    return {"violations": viol, "problems": problems,
+            "coverage": {"crosshair": {"contracts": expected, "confirmed_over_all_paths": confirmed, "seconds": round(time.time() - t0, 1),
+                                       "cmd": "python -m crosshair check --report_all --per_condition_timeout 120 vx/ch/decoders.py"}}}
+
+
 def small_graphs(nmax):
     out = []
     for n in range(2, nmax + 1):
@@ -313,13 +353,15 @@ def spec(tier, seed):
         u[1].setdefault("kind", u[1].get("gen"))
     return {
         "units": units,
+        "post": crosshair_post,
         "states_key": "gen",
         "caps": {"paths": 100000, "wall": 900},
         "level": "model_checking",
         "bounds": {"decoders": "comb: n<=6,m<=3 (quick) / n<=8,m<=4; prod: n<=4,m<=3 / n<=5,m<=4; partition: block sizes <=3, m<=3; two symbolic indices each (injectivity + range => bijection by counting)",
                    "generators": "parameter grids with at most 10 candidate indices per order (paths = 2^candidates); probabilities in {0, 0.5, 1}",
                    "draws": "geometric(): any integer >= 1; random(): any real in [0,1); sample(): any sub-selection"},
-        "assumptions": ["geometric() is replaced by its contract (>= 1; 1 at p=1; inf at p=0): the distribution is not modelled",
+        "assumptions": ["second engine: CrossHair 0.0.110 confirms range + injectivity of _index_to_edge_comb (n=5,m=3; n=6,m=2) and _index_to_edge_prod (n=3,m=3; n=4,m=2) over all paths",
+                        "geometric() is replaced by its contract (>= 1; 1 at p=1; inf at p=0): the distribution is not modelled",
                         "deterministic generators (complete_hypergraph, flag complexes with ps=None) have no solver variable: their units are exhaustive concrete grids"],
         "outside": ["distributional correctness", "large n", "watts_strogatz_hypergraph, ring_lattice, star_clique, sunflower (deterministic constructions not re-derived here)"],
     }
